@@ -15,7 +15,7 @@ const (
 
 // maximum parked bytes: 6 lets <= 3 packets of <= 3 bytes reach the byte capacity AND exhaust the
 // offsetter's index space (save index + bytes discarded since the last drain >= maxBytes) within the
-// history bound; the thorough tier also runs the roomy configuration
+// history bound; a roomier configuration (16) reaches none of them within k and was dropped
 var c20MaxBytes = 6
 
 type c20Ghost struct {
@@ -73,11 +73,8 @@ func c20PopCheck(b *ByteBuffer, sq *SlotSequencer, g *c20Ghost, s int) {
 }
 
 func VerifC20_History() {
-	K := vf.Bound("k", 4, 6)
+	K := vf.Bound("k", 4, 5)
 	c20MaxBytes = 6
-	if vf.Thorough() && vf.Bool("roomy") {
-		c20MaxBytes = 16
-	}
 	b := NewByteBuffer()
 	sq := NewSlotSequencer(c20MaxSlots, c20MaxBytes)
 	g := &c20Ghost{}
